@@ -16,6 +16,7 @@ pub struct Arm {
     pub c06: bool,
     pub c13: bool,
     pub c19: bool,
+    pub c09: bool,
 }
 
 #[derive(Clone)]
@@ -207,6 +208,9 @@ impl Scenario for HubCore {
             if self.with_withdraw {
                 v.push(withdraw(u));
             }
+            if self.arm.c09 {
+                v.push(claim(u, None));
+            }
         }
         if self.with_transfers {
             let (a, b) = (self.users[0], self.users[1]);
@@ -266,6 +270,9 @@ impl Scenario for HubCore {
         if self.arm.c19 {
             c19_step(pre, po, a, out, post, qo, cx);
         }
+        if self.arm.c09 {
+            c09_pair(pre, a, out, post, cx);
+        }
         g2
     }
     fn state(&self, c: &Chain, o: &HubObs, _g: &G, cx: &mut Cx) {
@@ -275,7 +282,9 @@ impl Scenario for HubCore {
         if self.arm.c06 {
             c06_state(o, cx);
         }
-        let _ = c;
+        if self.arm.c09 {
+            c09_probe(c, o, cx);
+        }
     }
 }
 
@@ -524,6 +533,9 @@ fn c03_step(po: &HubObs, a: &Action, out: &Outcome, qo: &HubObs, cx: &mut Cx) {
                 let unbonded: u128 = fx_attr(fx, HUB, "unbonded_amount").and_then(|s| s.parse().ok()).unwrap_or(amt);
                 let fee = amt - unbonded.min(amt);
                 let exp_b = if tok == BSEI { expected_rate(po.state.total_bond_bsei_amount.u128(), po.b_claims() - fee) } else { brate };
+                // a pool without booked stake redeems at zero (its reported rate 1 is only nominal)
+                let srate = if po.state.total_bond_stsei_amount.is_zero() { Decimal::zero() } else { srate };
+                let exp_b = if po.state.total_bond_bsei_amount.is_zero() { Decimal::zero() } else { exp_b };
                 if bonded && (h.stsei_applied_exchange_rate != srate || h.bsei_applied_exchange_rate != exp_b) {
                     cx.viol("C03.batch_close", "recorded rates differ from the pool rates at undelegation", format!("{}: recorded st {} b {} expected st {} b {}", a.label, h.stsei_applied_exchange_rate, h.bsei_applied_exchange_rate, srate, exp_b));
                 }
@@ -881,6 +893,127 @@ fn c19_step(pre: &Chain, po: &HubObs, a: &Action, out: &Outcome, post: &Chain, q
         }
         if grow > hi || grow + dust < hi {
             cx.viol("C19.holders_accrue", "bSei holders' total claimable reward did not grow by the delivered amount", format!("{}: grew {} delivered {} (1e-18 units) dust {}", a.label, grow, hi, dust));
+        }
+    }
+}
+
+// =============================================================================================
+// C09 — holders can always exit; exits do not depend on the reward plumbing
+
+fn set_modes(c: &mut Chain, s: Mode, o: Mode) {
+    c.swap_mode = s;
+    c.oracle_mode = o;
+}
+
+/// every user-facing transition gives the same result whatever the swap / oracle stubs do
+fn c09_pair(pre: &Chain, a: &Action, out: &Outcome, post: &Chain, cx: &mut Cx) {
+    let user_facing = a.is(HUB, "bond")
+        || a.is(HUB, "bond_for_st_sei")
+        || a.is(HUB, "withdraw_unbonded")
+        || a.is(HUB, "check_slashing")
+        || a.is(REWARD, "claim_rewards")
+        || a.is(BSEI, "transfer")
+        || a.is(STSEI, "transfer")
+        || a.is(BSEI, "send")
+        || a.is(STSEI, "send")
+        || a.is(BSEI, "send_from")
+        || a.is(STSEI, "send_from");
+    if !user_facing {
+        return;
+    }
+    cx.trigger("c09_stub_mode_products");
+    cx.validated();
+    let base_fp = post.fingerprint();
+    for (sm, om) in [(Mode::Fail, Mode::Fail), (Mode::Garbage, Mode::Garbage), (Mode::Fail, Mode::Garbage), (Mode::Garbage, Mode::Fail), (Mode::Ok, Mode::Fail), (Mode::Fail, Mode::Ok), (Mode::Ok, Mode::Garbage), (Mode::Garbage, Mode::Ok)] {
+        let mut c = pre.clone();
+        set_modes(&mut c, sm, om);
+        let o2 = apply(&mut c, a);
+        set_modes(&mut c, Mode::Ok, Mode::Ok);
+        if o2.res != out.res || c.fingerprint() != base_fp {
+            cx.viol(
+                "C09.plumbing_independent",
+                format!("{} depends on the swap/oracle contracts", action_class(a)),
+                format!("{} with swap {:?} oracle {:?}: {:?} vs {:?}", a.label, sm, om, o2.res.as_ref().map(|f| f.len()).map_err(|e| e.clone()), out.res.as_ref().map(|f| f.len()).map_err(|e| e.clone())),
+            );
+        }
+    }
+}
+
+/// from every state: every holder can unbond any part, the request is undelegated by the first
+/// unbond after the epoch, and the withdrawal succeeds after the unbonding period
+fn c09_probe(c: &Chain, o: &HubObs, cx: &mut Cx) {
+    if o.params.paused.unwrap_or(false) || o.delegated == 0 {
+        return;
+    }
+    for u in [ALICE, BOB] {
+        for tok in [BSEI, STSEI] {
+            let bal = o.tok_bal(tok, u);
+            if bal == 0 {
+                continue;
+            }
+            cx.trigger("c09_exit_probes");
+            let mut amounts = vec![1u128, bal];
+            amounts.dedup();
+            for amt in amounts {
+                let mut cc = c.clone();
+                let bid = o.batch.id;
+                let r = apply(&mut cc, &unbond(u, tok, amt));
+                if !r.ok() {
+                    cx.viol("C09.can_unbond", format!("unbond of {} refused: {}", if amt == bal { "the whole balance" } else { "one unit" }, crate::unbondlc::classify_err(r.err())), format!("{} {} {} of {}: {}", u, tok, amt, bal, r.err()));
+                    continue;
+                }
+                if amt != bal {
+                    continue;
+                }
+                // continue the whole-balance exit to the end
+                let mut o2 = HubObs::new(&cc);
+                if o2.batch.id == bid {
+                    let t = o2.state.last_unbonded_time + o2.params.epoch_period + 1;
+                    if t > cc.time {
+                        cc.advance(t - cc.time);
+                    }
+                    // the first unbond that arrives after the epoch: a fresh holder's single unit
+                    let rb = apply(&mut cc, &bond_st(CAROL, 10));
+                    let ru = apply(&mut cc, &unbond(CAROL, STSEI, 1));
+                    if !rb.ok() || !ru.ok() {
+                        cx.viol("C09.batch_closes", "the first unbond after the epoch period fails", format!("after {} unbonded {} {}: bond {:?} unbond {:?}", u, amt, tok, rb.res.err(), ru.res.err()));
+                        continue;
+                    }
+                    o2 = HubObs::new(&cc);
+                    if o2.batch.id == bid || o2.hist(bid).is_none() {
+                        cx.viol("C09.batch_closes", "the first unbond after the epoch period did not undelegate the pending batch", format!("batch {} still open after {}'s exit of {} {}", bid, u, amt, tok));
+                        continue;
+                    }
+                }
+                let h = o2.hist(bid).cloned().unwrap();
+                let t = h.time + o2.params.unbonding_period;
+                if t > cc.time {
+                    cc.advance(t - cc.time);
+                }
+                // value of all of the user's claims that are matured now (conservative lower bound)
+                let mut val = 0u128;
+                let mut n = 0u128;
+                for (b, x, y) in o2.requests.get(u).cloned().unwrap_or_default() {
+                    if let Some(hh) = o2.hist(b) {
+                        if hh.time + o2.params.unbonding_period <= cc.time {
+                            val += mul_dec(y, hh.stsei_withdraw_rate) + mul_dec(x, hh.bsei_withdraw_rate);
+                            n += 1;
+                        }
+                    }
+                }
+                let before = cc.bal(u, USEI);
+                let rw = apply(&mut cc, &withdraw(u));
+                cx.count("c09_exit_completed");
+                if rw.ok() {
+                    if cc.bal(u, USEI) <= before {
+                        cx.viol("C09.can_withdraw", "withdraw succeeded without paying", format!("{} {}", u, tok));
+                    }
+                } else if !rw.err().contains("No withdrawable") {
+                    cx.viol("C09.can_withdraw", format!("withdraw after the unbonding period fails: {}", crate::unbondlc::classify_err(rw.err())), format!("{} exit of {} {}: {}", u, amt, tok, rw.err()));
+                } else if val >= 1 + 3 * n + (c.unbonding.len() as u128) * 2 && c.unbonding.iter().all(|x| x.balance == x.initial) && cc.bal(HUB, USEI) >= val {
+                    cx.viol("C09.can_withdraw", "claims worth at least one unit refused after the unbonding period", format!("{} exit of {} {}: nominal value {} over {} claims", u, amt, tok, val, n));
+                }
+            }
         }
     }
 }
